@@ -1007,6 +1007,23 @@ def case_file_base(ctx, gtype, nseeds):
                 ctx.count("file_base_not_prepared")
                 continue
             shown = "<dir>/%s.%s" % (stem, fmt)
+            if not any(ch.isspace() for ch in path):
+                # the documented one-string form of a specification: the same words separated by blanks
+                from cnfgen.clitools.graph_args import make_graph_from_spec
+                for spec in ("%s %s" % (fmt, path), path):
+                    random.seed(1)
+                    st, val = ctx.call(make_graph_from_spec, gtype, spec)
+                    ctx.count("specifications_given_as_one_string")
+                    lab0 = "%s graph from the one-string specification %r" % (gtype, spec.replace(tmp, "<dir>"))
+                    if st == "exc":
+                        ctx.violation("file:string-spec:%s" % ("refuses-readable-file" if isinstance(val, ValueError) else "raises:" + type(val).__name__),
+                                      "%s ended in %r" % (lab0, val))
+                        continue
+                    try:
+                        if snapshot(gtype, val) != want:
+                            ctx.violation("file:string-spec:graph-differs-from-file", "%s: got %s, the file holds %s" % (lab0, show(snapshot(gtype, val)), show(want)))
+                    except Unreadable as e:
+                        ctx.violation("file:result-unreadable", "%s: %s" % (lab0, e))
             # the unmodified graph stored again in every format: the file name travels in the graph's name
             from cnfgen.clitools.graph_args import formats as _formats
             for sfmt in _formats[gtype]:
